@@ -1,6 +1,7 @@
 package core
 
 import (
+	"go/token"
 	"golang.org/x/tools/go/ssa"
 )
 
@@ -124,11 +125,26 @@ func singleReturn(g *ssa.Function, idx int) ssa.Value {
 		}
 		rv := RetVal(ret, idx)
 		if v != nil && rv != v {
+			// a local returned by value from several places: every return reads the same variable
+			if sameLocalLoad(v, rv) {
+				continue
+			}
 			return nil
 		}
 		v = rv
 	}
 	return v
+}
+
+// sameLocalLoad: a and b are reads of one local variable of the function.
+func sameLocalLoad(a, b ssa.Value) bool {
+	la, ok1 := a.(*ssa.UnOp)
+	lb, ok2 := b.(*ssa.UnOp)
+	if !ok1 || !ok2 || la.Op != token.MUL || lb.Op != token.MUL || la.X != lb.X {
+		return false
+	}
+	_, isAlloc := la.X.(*ssa.Alloc)
+	return isAlloc
 }
 
 
